@@ -183,24 +183,30 @@ class GetConversionFactor(Contract):
             return (f, None)
         return (f, it.fresh_real("conv_offset"))
 
-    def ensures(self, it, a, r, old):
+    def law(self, it, a, r, x):
         P = it.domain.prefix_table(it)
+        f, o = r
+        conv = to_real(x) * to_real(f) - (to_real(o) if o is not None else 0)
+        return S.SI(conv, a.new_units, P) == S.SI(x, a.old_units, P)
+
+    def ensures(self, it, a, r, old):
         f, o = r
         x = getattr(self, "x", None)
         if x is None:
             x = z3.Real("x_reading")
         both_zero = z3.And(S.offset(a.old_units) == 0, S.offset(a.new_units) == 0)
-        if o is None:
-            conv = x * to_real(f)
-            none_ok = both_zero
-        else:
-            conv = x * to_real(f) - to_real(o)
-            none_ok = z3.Not(both_zero)
         return [
-            ("SI(x*factor - offset, new) == SI(x, old) for every reading x",
-             S.SI(conv, a.new_units, P) == S.SI(x, a.old_units, P)),
-            ("offset is None exactly when both units have zero offset", none_ok),
+            ("SI(x*factor - offset, new) == SI(x, old) for every reading x", self.law(it, a, r, x)),
+            ("offset is None exactly when both units have zero offset",
+             both_zero if o is None else z3.Not(both_zero)),
         ]
+
+    def apply(self, it, bound):
+        from pyvc.contracts import Args
+        r = Contract.apply(self, it, bound)
+        a = Args(bound)
+        it.ctx.univ.append(lambda x, a=a, r=r: self.law(it, a, r, x))
+        return r
 
     def canary(self, it, a, r, old):
         return to_real(r[0]) == 1
